@@ -7,6 +7,7 @@ import (
 	"github.com/ThreeDotsLabs/watermill"
 	"os"
 	"sort"
+	"runtime"
 	"strings"
 	"sync"
 	"sync/atomic"
@@ -77,6 +78,9 @@ func c10Programs(c *Ctx) []c10Prog {
 		// Stop() on a handler that has ended already, RunHandlers while a handler is ending: no panic, nothing starts twice
 		{"stop-twice", strings.Fields("add:a:p1 add:b:p2 run waitrunning started:a started:b stop:a waitstopped:a stop:a probe:b cancel")},
 		{"stop-twice", strings.Fields("add:a:p1 add:b:p2 run waitrunning started:a started:b stop:a rhx6 waitstopped:a rh stop:a probe:b cancel")},
+		{"stop-abreast", strings.Fields("add:a:p1 add:b:p2 run waitrunning started:a started:b stopx:a waitstopped:a probe:b stopx:b waitstopped:b")},
+		{"stop-abreast", strings.Fields("add:a:p1 add:b:p2 add:c:p3 run waitrunning started:a started:b started:c stopx:b waitstopped:b probe:a probe:c stopx:b cancel")},
+		{"stop-abreast", strings.Fields("add:a:p1 run waitrunning started:a add:b:p2 rh started:b stopx:b waitstopped:b probe:a stopx:a waitstopped:a")},
 		{"second-run-during-startup", strings.Fields("add:a:p1 add:b:p2 holdsub:a run run2 release waitrunning probe:a probe:b cancel")},
 		{"publish-right-after-running", strings.Fields("add:a:p1 add:b:p2 add:c:p3 run waitrunning probe:c probe:b probe:a cancel")},
 		{"rh-before-run", strings.Fields("add:a:p1 rh run waitrunning probe:a cancel")},
@@ -513,6 +517,40 @@ func c10Run(r *tr.Run, p c10Prog) {
 			pn, v := Guarded(func() { handles[h].Stop() })
 			if pn {
 				r.Emit("stoppanic", "h", h, "val", v)
+				return
+			}
+			r.Emit("stopret", "h", h)
+		case f[0] == "stopx":
+			// several Stop() calls on one handler at the same instant
+			h := f[1]
+			r.Emit("stopcall", "h", h)
+			var sw sync.WaitGroup
+			var ready, goNow int32
+			const nstop = 6
+			var panicked int32
+			for i := 0; i < nstop; i++ {
+				sw.Add(1)
+				go func() {
+					defer sw.Done()
+					atomic.AddInt32(&ready, 1)
+					for atomic.LoadInt32(&goNow) == 0 {
+					}
+					if pn, v := Guarded(func() { handles[h].Stop() }); pn {
+						if atomic.AddInt32(&panicked, 1) == 1 {
+							r.Emit("stoppanic", "h", h, "val", v)
+						}
+					}
+				}()
+			}
+			for atomic.LoadInt32(&ready) < nstop {
+				runtime.Gosched()
+			}
+			atomic.StoreInt32(&goNow, 1)
+			if !WaitOrHang(waitWG(&sw)) {
+				r.Emit("hung", "what", "concurrent Stop calls")
+				return
+			}
+			if atomic.LoadInt32(&panicked) > 0 {
 				return
 			}
 			r.Emit("stopret", "h", h)
